@@ -155,6 +155,10 @@ def formulas(which: str, tier: str) -> list:
             for k2 in ("any", "all"):
                 out.append(Quant(k1, "x", o, Quant(k2, "y", Sym("<d>"), Atom('str(x).startswith(str(y))'))))
                 out.append(Quant(k1, "x", o, Quant(k2, "y", Sym("<d>"), Atom('int(y) > 1', cmp=True))))
+                # inner verdict depends on the OUTER python variable (a memo that forgets it serves the first result to all)
+                out.append(Quant(k1, "x", o, Quant(k2, "y", Sym("<d>"), Atom('int(y) >= len(str(x))', cmp=True))))
+                out.append(Quant(k1, "x", Sym("<d>"), Quant(k2, "y", Sym("<d>"), Atom('str(y) < str(x)', cmp=True))))
+                out.append(Quant(k1, "x", Sym("<d>"), Quant(k2, "y", Sym("<d>"), Bare(And(Atom('str(y) != "a"', cmp=True), Atom('str(y) <= str(x)', cmp=True))))))
     # sibling quantifiers under and/or (scope leakage)
     q1 = Quant("exists", "<q>", sels[0], Atom('str({0}) == "1"', (Sym("<q>"),), cmp=True))
     q2 = Quant("forall", "<q>", sels[1], Atom('{0} != "a"', (Sym("<q>"),), cmp=True))
